@@ -392,3 +392,123 @@ Proof.
   - rewrite cur_ivs_ext with (w := w); [apply H|apply Ha| |intros; apply Ha].
     rewrite Hk. destruct (Z.eqb_spec n p); [contradiction|reflexivity].
 Qed.
+
+(* ================================================================== *)
+(** * Frame lemmas for the primitives *)
+
+Lemma getn_setn : forall w c x n, getn (setn w c x) n = if n =? c then x else getn w n.
+Proof. intros. unfold getn, setn. cbn [nodes set_nodes]. unfold upd. destruct (n =? c); reflexivity. Qed.
+
+Lemma attr_setn : forall w c x n, attr (setn w c x) n = if n =? c then akey x else attr w n.
+Proof. intros. unfold attr. rewrite getn_setn. destruct (n =? c); reflexivity. Qed.
+
+Lemma attr_set_par : forall w c p n, attr (set_par w c p) n = attr w n.
+Proof.
+  intros. unfold set_par. rewrite attr_setn. destruct (Z.eqb_spec n c) as [E|E]; [subst n|]; reflexivity.
+Qed.
+
+Lemma par_set_par : forall w c p n, par (set_par w c p) n = if n =? c then p else par w n.
+Proof. intros. unfold par, set_par. rewrite getn_setn. destruct (n =? c); reflexivity. Qed.
+
+Lemma kids_set_par : forall w c p, kids (set_par w c p) = kids w.
+Proof. reflexivity. Qed.
+Lemma tree_set_par : forall w c p, tree (set_par w c p) = tree w.
+Proof. reflexivity. Qed.
+
+Lemma attr_nodes : forall w w' n, nodes w' = nodes w -> attr w' n = attr w n.
+Proof. intros w w' n H. unfold attr, getn. rewrite H. reflexivity. Qed.
+
+Lemma nodes_mod_index_discard : forall w m n, nodes (mod_index_discard w m n) = nodes w.
+Proof. intros. unfold mod_index_discard. destruct (kindof w n); try reflexivity. destruct (referent (getn w n)); reflexivity. Qed.
+Lemma kids_mod_index_discard : forall w m n, kids (mod_index_discard w m n) = kids w.
+Proof. intros. unfold mod_index_discard. destruct (kindof w n); try reflexivity. destruct (referent (getn w n)); reflexivity. Qed.
+Lemma tree_mod_index_discard : forall w m n, tree (mod_index_discard w m n) = tree w.
+Proof. intros. unfold mod_index_discard. destruct (kindof w n); try reflexivity. destruct (referent (getn w n)); reflexivity. Qed.
+Lemma nodes_mod_index_add : forall w m n, nodes (mod_index_add w m n) = nodes w.
+Proof. intros. unfold mod_index_add. destruct (kindof w n); try reflexivity. destruct (referent (getn w n)); reflexivity. Qed.
+Lemma kids_mod_index_add : forall w m n, kids (mod_index_add w m n) = kids w.
+Proof. intros. unfold mod_index_add. destruct (kindof w n); try reflexivity. destruct (referent (getn w n)); reflexivity. Qed.
+Lemma tree_mod_index_add : forall w m n, tree (mod_index_add w m n) = tree w.
+Proof. intros. unfold mod_index_add. destruct (kindof w n); try reflexivity. destruct (referent (getn w n)); reflexivity. Qed.
+
+Lemma attr_mod_index_discard : forall w m n x, attr (mod_index_discard w m n) x = attr w x.
+Proof. intros. apply attr_nodes, nodes_mod_index_discard. Qed.
+Lemma attr_mod_index_add : forall w m n x, attr (mod_index_add w m n) x = attr w x.
+Proof. intros. apply attr_nodes, nodes_mod_index_add. Qed.
+
+Lemma attr_drop_kid : forall w p c n, attr (drop_kid w p c) n = attr w n. Proof. reflexivity. Qed.
+Lemma attr_push_kid : forall w p c n, attr (push_kid w p c) n = attr w n. Proof. reflexivity. Qed.
+Lemma attr_cache_add : forall w ir c n, attr (cache_add w ir c) n = attr w n. Proof. reflexivity. Qed.
+Lemma attr_cache_remove : forall w ir c n, attr (fst (cache_remove w ir c)) n = attr w n. Proof. reflexivity. Qed.
+Lemma attr_set_cache : forall w f n, attr (set_cache w f) n = attr w n. Proof. reflexivity. Qed.
+Lemma attr_set_kids : forall w f n, attr (set_kids w f) n = attr w n. Proof. reflexivity. Qed.
+Lemma attr_set_tree : forall w f n, attr (set_tree w f) n = attr w n. Proof. reflexivity. Qed.
+Lemma attr_set_nix : forall w f n, attr (set_nix w f) n = attr w n. Proof. reflexivity. Qed.
+Lemma attr_set_rix : forall w f n, attr (set_rix w f) n = attr w n. Proof. reflexivity. Qed.
+Lemma attr_set_symx : forall w f n, attr (set_symx w f) n = attr w n. Proof. reflexivity. Qed.
+Lemma attr_tree_add_ev : forall w p o n, attr (tree_add_ev w p o) n = attr w n. Proof. reflexivity. Qed.
+Lemma attr_tree_disc_ev : forall w p o n, attr (tree_disc_ev w p o) n = attr w n. Proof. reflexivity. Qed.
+
+Global Hint Rewrite attr_set_par attr_mod_index_discard attr_mod_index_add attr_drop_kid attr_push_kid
+  attr_cache_add attr_cache_remove attr_set_cache attr_set_kids attr_set_tree attr_set_nix attr_set_rix
+  attr_set_symx attr_tree_add_ev attr_tree_disc_ev : wf.
+
+Lemma kids_mod_index_discard' : forall w m n x, kids (mod_index_discard w m n) x = kids w x.
+Proof. intros. rewrite kids_mod_index_discard. reflexivity. Qed.
+Lemma tree_mod_index_discard' : forall w m n x, tree (mod_index_discard w m n) x = tree w x.
+Proof. intros. rewrite tree_mod_index_discard. reflexivity. Qed.
+Lemma kids_mod_index_add' : forall w m n x, kids (mod_index_add w m n) x = kids w x.
+Proof. intros. rewrite kids_mod_index_add. reflexivity. Qed.
+Lemma tree_mod_index_add' : forall w m n x, tree (mod_index_add w m n) x = tree w x.
+Proof. intros. rewrite tree_mod_index_add. reflexivity. Qed.
+
+(* projection simplifier: exposes kids/tree of a chain of primitives *)
+Ltac wproj :=
+  cbn [fst snd nodes kids tree cache nix rix symx set_nodes set_kids set_cache set_nix set_rix set_tree set_symx
+       setn set_par drop_kid push_kid tree_add_ev tree_disc_ev cache_add cache_remove symx_upd].
+
+(* ================================================================== *)
+(** * set_discard *)
+
+Lemma set_discard_attr : forall w p c n, attr (fst (set_discard w p c)) n = attr w n.
+Proof.
+  intros w p c n. unfold set_discard.
+  destruct (negb (mem c (kids w p))); [reflexivity|].
+  destruct (kindof w p); try reflexivity.
+  - destruct (ir_of _ p) as [ir|]; unfold cache_remove; cbn [fst]; autorewrite with wf; reflexivity.
+  - destruct (ir_of _ p) as [ir|]; unfold cache_remove; cbn [fst]; autorewrite with wf; reflexivity.
+  - destruct (ir_of _ p) as [ir|]; unfold cache_remove; cbn [fst]; autorewrite with wf; reflexivity.
+Qed.
+
+Lemma key_of_kind_mod : forall w p c, kindof w p = KMod -> key_of w p c = None.
+Proof. intros w p c K. unfold key_of. rewrite K. reflexivity. Qed.
+Lemma key_of_kind_sec : forall w p c, kindof w p = KSec -> key_of w p c = addr_iv w c.
+Proof. intros w p c K. unfold key_of. rewrite K. reflexivity. Qed.
+Lemma key_of_kind_bi : forall w p c, kindof w p = KBI -> key_of w p c = off_iv w c.
+Proof. intros w p c K. unfold key_of. rewrite K. reflexivity. Qed.
+
+Lemma set_discard_sync : forall w p c, SyncAll w -> SyncAll (fst (set_discard w p c)).
+Proof.
+  intros w p c H. unfold set_discard.
+  destruct (negb (mem c (kids w p))); [exact H|].
+  destruct (kindof w p) eqn:K; try exact H.
+  - destruct (ir_of _ p) as [ir|]; unfold cache_remove; cbn [fst];
+    (apply sync_discard_at with (w := w) (p := p) (c := c);
+     [exact H
+     |intros n; autorewrite with wf; reflexivity
+     |intros n; wproj; rewrite kids_mod_index_discard; reflexivity
+     |intros n; wproj; rewrite tree_mod_index_discard, (key_of_kind_mod w p c K); wproj;
+      destruct (Z.eqb_spec n p) as [E|E]; [subst n|]; reflexivity]).
+  - destruct (ir_of _ p) as [ir|]; unfold cache_remove; cbn [fst];
+    (apply sync_discard_at with (w := w) (p := p) (c := c);
+     [exact H
+     |intros n; autorewrite with wf; reflexivity
+     |intros n; reflexivity
+     |intros n; rewrite (key_of_kind_sec w p c K); reflexivity]).
+  - destruct (ir_of _ p) as [ir|]; unfold cache_remove; cbn [fst];
+    (apply sync_discard_at with (w := w) (p := p) (c := c);
+     [exact H
+     |intros n; autorewrite with wf; reflexivity
+     |intros n; reflexivity
+     |intros n; rewrite (key_of_kind_bi w p c K); reflexivity]).
+Qed.
